@@ -7,7 +7,7 @@ from mc.core import Acc, Hang
 
 ID = "C09"
 RULE = ("E-INPUT: the C07 datasets (<= 2 data quick, <= 3 thorough; numeric and datetime kinds) x 4 directions x domain "
-        "{derived, explicit} x 3 engine option sets x 2 size/padding/margin sets, each with one of 10 colour/border/tick-cross "
+        "{derived, explicit} x 3 engine option sets x 2 size/padding/margin sets, each with one of 12 colour/border/tick-cross/dot-radius "
         "variants (3-digit hex, 6-digit hex, short colour lists that wrap around, functions of the datum, for dot/link/label "
         "background/label text/border colour, one at a time and all together) assigned in rotation so every variant meets every "
         "configuration. Two timelines from deep-copied data and separately built equal scales; SVG and TikZ exports parsed and "
@@ -32,6 +32,8 @@ VARIANTS = [
     {"dotColor": ["#9a9", "#FFF"], "linkColor": "fn-width", "labelBgColor": ["#321", "#654", "#987"], "labelTextColor": ["#fff", "#eee"],
      "borderColor": "fn-text", "showBorder": True},
     {"dotColor": "abc", "linkColor": "A1B2C3"},
+    {"dotRadius": 1.75, "labelBgColor": "#0a0"},
+    {"dotRadius": 2.2, "layerGap": 23.4},
 ]
 
 
